@@ -37,10 +37,13 @@ fn in_predicate() {
     // an arbitrary subset of the states is "active" (the predicate does not depend on legality)
     let mask = vnd_range(0, (1 << (m.sh.n + 1)) - 1, 1) & !1;
     let q = vnd_conc(vnd_range(1, m.sh.n as u32, 2), m.sh.n as u32);
+    // the configuration is an ordered set in entry order, which need not be ascending by id
+    let descending = vnd_bool(4);
     {
         let mut gd = g.lock().unwrap();
-        let mut s = 1u32;
-        while s <= m.sh.n as u32 { if mask & (1 << s) != 0 { gd.configuration.add(s); } s += 1; }
+        let n = m.sh.n as u32;
+        let mut i = 1u32;
+        while i <= n { let s = if descending { n + 1 - i } else { i }; if mask & (1 << s) != 0 { gd.configuration.add(s); } i += 1; }
     }
     let which = vnd_bool(3);
     let text = format!("In('s{}')", q);
